@@ -224,6 +224,9 @@ def wrapper_rows(ctx, rule="C21.R6"):
 
 def run(ctx):
     rep = ctx.rep
+    rep.rule("C21.R7", "the solvers' warnings are audible: no warn(...) in cardillo/solver or fsolve is issued under a suppressing filter the code itself installed, and no 'ignore' filter is installed for good", 10)
+    from .c22 import warnings_audible
+    warnings_audible(ctx, "C21.R7", ("cardillo/solver/", "cardillo/math/fsolve.py"), floor_calls=8)
     rep.rule("C21.R6", "the ODE / DAE wrappers build t, q, u of the returned Solution from the integrator's own outputs (.t, .y, .yp), never from the dense-output interpolant or the requested grid: after a failure only integrated instants are returned", 6)
     wrapper_rows(ctx)
     rep.rule("C21.R1", "no silent escape of a possibly-false convergence flag", 15)
@@ -526,4 +529,9 @@ NEUTRAL += [
     dict(id="c21-n-r6", canary=True, what="ScipyIVP names the integrator's state matrix before splitting it", file='cardillo/solver/scipy_ivp.py',
          old="        t = sol.t\n        nt = len(t)\n        q = sol.y[: self.nq, :].T\n        u = sol.y[self.nq :, :].T\n",
          new="        t = sol.t\n        nt = len(t)\n        y = sol.y\n        q = y[: self.nq, :].T\n        u = y[self.nq :, :].T\n"),
+]
+
+MUTANTS += [
+    dict(id="c21-r7-global", canary=True, what="Moreau's module silences all UserWarnings for good (to get rid of tqdm / scipy noise)", file='cardillo/solver/moreau.py',
+         old="import numpy as np\n", new="import numpy as np\nimport warnings as _w\n\n_w.simplefilter(\"ignore\", UserWarning)\n", expect="C21.R7"),
 ]
